@@ -85,7 +85,7 @@ TRUSTED = [
     "modelled, not verified: the daemon's own queries, probing, SearchStarted and monitor events other than IpAdd/IpDel "
     "are removed from the observation; record expiry is outside the histories (TTL 4500 s, histories < 40 s)",
 ]
-PARTIAL = ("Theorems over all histories: C18_invariant_reachable, C18_step_preserves_invariant, "
+PARTIAL = ("A run in which one listener is sent more than 10 events within one iteration blocks the daemon (known finding C14-full-listener-blocks-daemon) and is not judged here (projection SKIP).  Theorems over all histories: C18_invariant_reachable, C18_step_preserves_invariant, "
            "C18_every_packet_justified, C18_checker_accepts_every_run (hypotheses: unique (interface, address) pairs per "
            "OS table; hist_wf = netmasks fit their family and no IPv4 address on two interfaces in the whole history; "
            "history outside the decidable class known_class = finding C18-selection-while-absent, witness "
@@ -766,6 +766,14 @@ def project(line, raw):
     if len(recs) != len(steps):
         outs.append("MISSING-ITERATIONS %d/%d" % (len(recs), len(steps)))
     if any(r.get("stuck") or r.get("exited") for r in recs):
+        # A listener channel holds 10 events and the harness reads channels between iterations only: an
+        # iteration that sends an 11th event to one listener blocks the daemon thread (the known finding
+        # C14-full-listener-blocks-daemon). Such a run says nothing about interfaces and is not judged
+        # here; a daemon that is stuck for any other reason is reported.
+        stuck = [r for r in recs if r.get("stuck")]
+        if stuck and not any(r.get("exited") for r in recs) and \
+                max([len(v) for v in (stuck[-1].get("events") or {}).values()] or [0]) >= 10:
+            return "SKIP"
         outs.append("DAEMON-STUCK-OR-EXITED")
     return "iterations=%d %s" % (len(steps), " | ".join(outs))
 
